@@ -1,4 +1,5 @@
 import PeliteModel.Model.Strings
+import PeliteModel.Lemmas.IterSeq
 /-! Specification side of C20, written from the property statement, not from the code. -/
 namespace Pelite.Strings
 
@@ -39,5 +40,21 @@ def specRunAt (bytes : Bytes) (cfg : Config) (s : Nat) : Option Found :=
 
 def specAll (bytes : Bytes) (cfg : Config) : List Found :=
   (List.range bytes.size).filterMap (specRunAt bytes cfg)
+
+/-! ### the model's iterator in the vocabulary of the sequence specification (C18) -/
+open Pelite.Seq
+
+/-- one call on the model's enumerator (state = `self.offset`) -/
+def stepOp (bytes : Bytes) (cfg : Config) (off : Nat) : Op → Res Found × Nat
+  | .next => (.item (step bytes cfg off).1, (step bytes cfg off).2)
+  | .nth n => (.item (nthFound bytes cfg off n).1, (nthFound bytes cfg off n).2)
+  | .sizeHint => (.hint (sizeHintFound bytes cfg off).1 (sizeHintFound bytes cfg off).2, off)
+  | .count => (.num (countFound bytes cfg off 0), off)     -- `it.clone().count()`
+  | .clone => (.list (itemsFrom bytes cfg off), off)       -- `it = it.clone()`: same fields; its items
+
+/-- the answers of a whole call history on the enumerator standing at `off` -/
+def runOps (bytes : Bytes) (cfg : Config) : Nat → List Op → List (Res Found)
+  | _, [] => []
+  | off, o :: os => (stepOp bytes cfg off o).1 :: runOps bytes cfg (stepOp bytes cfg off o).2 os
 
 end Pelite.Strings
